@@ -39,6 +39,9 @@ typedef struct EGLPNUM_TYPENAME_price_res
 }
 EGLPNUM_TYPENAME_price_res;
 
+void EGLPNUM_TYPENAME_ILLprice_sync_norm_dimensions (
+	EGLPNUM_TYPENAME_lpinfo * const lp,
+	EGLPNUM_TYPENAME_price_info * const pinf);
 int EGLPNUM_TYPENAME_ILLprice_test_for_heap (
 	EGLPNUM_TYPENAME_lpinfo * const lp,
 	EGLPNUM_TYPENAME_price_info * const pinf,
